@@ -18,6 +18,9 @@ pub fn run(stim: &Value, rec: &Rec) {
     let ncalls = stim["calls"].as_u64().unwrap_or(5);
     let env = Arc::new(Mutex::new(Env { script, pos: 0, consumed: vec![], kills: vec![], invocations: 0 }));
     let log = rec.clone();
+    let hook_log = rec.clone();
+    // only the Reconnect events: the in-process servers of this lab emit accept-loop events too
+    tonic::transport::verif_hooks::set_sink(Some(Box::new(move |ev, n| if ev.starts_with("rc_") { hook_log.ev(json!({"e":"hook","ev":ev,"n":n})) })));
     let server_stim = json!({"server":{"send":[],"accept":[]},"script":{"init_meta":[],"msgs":[[7]],"end":{"ok":true},"fail_before":false,"no_compress":false}});
     block_on_paused(async move {
         let env2 = env.clone();
@@ -30,6 +33,7 @@ pub fn run(stim: &Value, rec: &Rec) {
                 let r = { let mut e = env.lock().unwrap(); e.invocations += 1;
                     let r = if e.pos < e.script.len() && e.script[e.pos] != "D" { let r = e.script[e.pos].clone(); e.pos += 1; r } else { "F".to_string() };
                     e.consumed.push(r.clone()); r };
+                log.ev(json!({"e":"connector","r":r}));
                 if r == "S" {
                     let (c_io, s_io, _d) = Shim::pair(65536, 65536, 65536, 0);
                     env.lock().unwrap().kills.push(c_io.kill_switch());
@@ -55,9 +59,11 @@ pub fn run(stim: &Value, rec: &Rec) {
             let mut killed = 0;
             loop {
                 let k = { let mut e = env.lock().unwrap(); if e.pos < e.script.len() && e.script[e.pos] == "D" { e.pos += 1; Some(e.kills.last().cloned()) } else { None } };
-                match k { Some(Some(k)) => { if !k.dead.load(std::sync::atomic::Ordering::SeqCst) { killed += 1; } k.kill(); } Some(None) => {} None => break }
+                match k { Some(Some(k)) => { let was = !k.dead.load(std::sync::atomic::Ordering::SeqCst); if was { killed += 1; } k.kill(); log.ev(json!({"e":"kill","was_alive":was})); }
+                          Some(None) => { log.ev(json!({"e":"kill","was_alive":false})); } None => break }
             }
             tokio::time::sleep(Duration::from_millis(1)).await;
+            log.ev(json!({"e":"issue","i":i}));
             let r = tokio::time::timeout(Duration::from_secs(3600), cl.unary(tonic::Request::new(vec![1u8]))).await;
             let consumed = std::mem::take(&mut env.lock().unwrap().consumed);
             match r {
@@ -70,4 +76,5 @@ pub fn run(stim: &Value, rec: &Rec) {
         let inv = env.lock().unwrap().invocations;
         log.ev(json!({"e":"summary","connector_invocations":inv}));
     });
+    tonic::transport::verif_hooks::set_sink(None);
 }
